@@ -6,6 +6,7 @@ use vcore::report::*;
 
 mod c08;
 mod c09;
+mod pool;
 #[path = "../../e_front/src/lex.rs"]
 #[allow(dead_code)]
 mod lex;
